@@ -110,7 +110,7 @@ var properties = map[string]*propDef{
 		NotDecided:  "ParseDegree's use of strings.Trim (it accepts some non-canonical spellings such as `3b`; the property only needs printed notation to read back); findNameBySemitone's search as a computation.",
 	},
 	"C16": {
-		Rules:       []string{"TAB-CHORDS", "TAB-ATTRS", "BUILDER", "VALIDATE", "RECUR", "EXTENDS", "WIRE"},
+		Rules:       []string{"TAB-CHORDS", "TAB-ATTRS", "BUILDER", "VALIDATE", "REJECT", "RECUR", "EXTENDS", "WIRE"},
 		Technique:   techTab + ": the two embedded dictionaries are constants and are decided completely",
 		Explanation: "the data clauses completely: every built-in symbol resolves, parent first, through the checker's own resolver and notation reader to the stated interval set; aliases; every attribute name denotes the interval its English name says; attribute.yml equals the independent generator's list for 1..19; chords are indexed by name and by display; built-ins are loaded before user files; every decoded entry is validated, references are validated by NewMap (the only constructor of Map), cyclic extends is rejected by a visited-set walk; inheritance is parent-first and recursive.",
 		NotDecided:  "that GenerateAttributes computes the list (its tables and loop bounds are checked and the file is compared with an independent generator, the function itself is not evaluated).",
@@ -132,11 +132,11 @@ var wireScope = map[string][]string{
 	"C07": {"astconv.Meta", "astconv.ASTConverter.Convert|meta", "midix.NewTrackOp", "cmd.newWriteCmdArgsFromInputInstances", "cmd.writeCmdArgs.writeToPlay", "cmd.getScale"},
 	"C08": {"midix."},
 	"C09": {"astconv.MetaInstanceModifierImpl.", "note.NewDegree", "note.ParseDegree", "chord.Map."},
-	"C10": {"cmd.writeCmdConv.RunE", "note.ParseDegree", "note.NewDegree", "cmd.newWriteCmdArgsFromInputInstances", "astconv.ASTConverter.Convert", "astconv.ValuesConverterImpl.", "astconv.MetaConverterImpl."},
+	"C10": {"input.ChordMetaTextMotifier", "cmd.writeCmdConv.RunE", "note.ParseDegree", "note.NewDegree", "cmd.newWriteCmdArgsFromInputInstances", "astconv.ASTConverter.Convert", "astconv.ValuesConverterImpl.", "astconv.MetaConverterImpl."},
 	"C11": {"input/ast.NewToken", "astconv.SyllableChordConverter.newScaleNote", "astconv.DegreeChordConverter.", "astconv.SyllableChordConverter.Convert", "astconv.ValuesConverterImpl.", "cmd.infoCmdChordDescribe.RunE"},
 	"C13": {"op.Scale.", "op.ScaleNote.Semitone", "op.Key.Semitone", "desc.Key.Describe", "cmd.getScale", "cmd.infoKeyCmdDescribe"},
 	"C14": {"cmd.infoKeyCmdConv", "cmd.getScale"},
-	"C15": {"note.Note.AddDegree", "note.ParseDegree", "note.NewDegree", "note.Note.Semitone", "chord.Attribute.Semitone", "desc.Attribute.Describe", "cmd.infoCmdAttrDescribe", "cmd.getRootNote", "chord.Map.GetAttribute", "chord.GenerateAttributes"},
+	"C15": {"input.ChordMetaTextMotifier", "note.Note.AddDegree", "note.ParseDegree", "note.NewDegree", "note.Note.Semitone", "chord.Attribute.Semitone", "desc.Attribute.Describe", "cmd.infoCmdAttrDescribe", "cmd.getRootNote", "chord.Map.GetAttribute", "chord.GenerateAttributes"},
 	"C16": {"cmd.genCmdAttr", "chord.", "desc.Chord.Describe", "desc.Attribute.Describe", "cmd.infoCmdChordDescribe", "cmd.newChordMap"},
 	"C17": {"desc.Key.Describe", "op.DiatonicChorderImpl.", "cmd.infoKeyCmdDescribe", "op.Scale.", "op.ScaleNote.Semitone", "cmd.getScale", "chord.Map."},
 }
@@ -154,6 +154,7 @@ var otherScope = map[string]map[string][]string{
 	// the same tokens on one long line or on several lines: nothing may be cut silently
 	"C04": {"ERRDROP": {"*bufio.Scanner", "cmd.parseText"}},
 	"C11": {"ERRDROP": {"*bufio.Scanner"}},
+	"C16": {"REJECT": {"chord."}},
 	"C12": {"TAB-DEGREE": {"note.Degree.simpleSemitone|adjust", "note.Degree|adjust", "note.Degree.Semitone|order"}},
 	// an unknown --key must be refused, not answered with another key's scale
 	"C13": {"ERRFLOW": {"cmd.getScale", "op.NewScale", "cmd.getKey"}},
